@@ -50,3 +50,18 @@ Fixpoint long_chain (n : nat) (i : N) : list (str * (str * tv)) :=
   | O => [([i], ([i], doc_noext [] 0))]
   | S n' => ([i], ([i], doc (Some [i + 1]) [] 0)) :: long_chain n' (i + 1)
   end.
+
+(* fix D67: the base spells structure.deny_files by its alias, the leaf by its canonical name *)
+Definition s_bak : str := [42;46;98;97;107].      (* *.bak *)
+Definition s_tmp : str := [42;46;116;109;112].    (* *.tmp *)
+Definition world_alias : fsys :=
+  mkfs [ (fA, (fA, TTab [(K_extends, TStr fB); (K_structure, TTab [(K_deny_files, TArr [TStr s_tmp])])]));
+         (fB, (fB, TTab [(K_structure, TTab [(K_deny_alias, TArr [TStr s_bak])])])) ] [].
+
+(* fixes D66 / D68: inheritance keys that are present but not strings *)
+Definition world_bad_extends : fsys :=
+  mkfs [ (fA, (fA, TTab [(K_extends, TArr [TStr fB])])); (fB, (fB, doc_noext [] 2)) ] [].
+Definition world_bad_pin : fsys :=
+  mkfs [ (fA, (fA, TTab [(K_extends, TStr fB); (K_sha, TInt 12345)])); (fB, (fB, doc_noext [] 2)) ] [].
+Definition world_bad_extends_in_base : fsys :=
+  mkfs [ (fA, (fA, doc (Some fB) [] 1)); (fB, (fB, TTab [(K_extends, TBool true)])) ] [].
